@@ -76,10 +76,15 @@ def make_class(log):
 def section(env, name, cls, err, tag):
     """one module section built with the real DSL; returns (Mod, expectations)"""
     from frappy.config import Mod, Param
-    lo = env.real(tag + '.min', 0, 100)
-    hi = env.real(tag + '.max', 0, 100)
-    v = env.real(tag + '.value', 0, 100)
-    if err == 'inverted-limits':
+    if tag == 'm3':
+        lo, hi, v = 0.5, 90.0, 2.5      # the third module: concrete numbers (keeps the queries small)
+    else:
+        lo = env.real(tag + '.min', 0, 100)
+        hi = env.real(tag + '.max', 0, 100)
+        v = env.real(tag + '.value', 0, 100)
+    if tag == 'm3':
+        pass
+    elif err == 'inverted-limits':
         env.assume(lo > hi)
     else:
         env.assume(M.And(lo <= v, v <= hi))
@@ -118,17 +123,20 @@ def run_config(env, p):
     w.env = env
     w.log = []
     cls = make_class(w.log)
+    nopoll = type('CfgNoPoll', (cls,), {'enablePoll': False})     # a module without polling has its configured values written as well
     mods = Collector(Mod)
     exp = {}
-    names = ['m1', 'm2']
-    for name, err in zip(names, p['errors']):
-        mod, exp[name] = section(env, name, cls, err, name)
+    names = ['m1', 'm2', 'm3']
+    errors = list(p['errors']) + ['none']
+    for name, err in zip(names, errors):
+        mod, exp[name] = section(env, name, nopoll if name == 'm3' else cls, err, name)
         mods.append(mod)
     node = NodeCollector()
     node.add('eq', 'node description', 'tcp://1')
     config = Config(node, mods)
     config.pop('node')
-    srv = build_server(env, w, dict(config))
+    cfgdict = dict(config)
+    srv = build_server(env, w, cfgdict)
     K = 'C10'
     orig_wait = threading.Event.wait
 
@@ -149,12 +157,12 @@ def run_config(env, p):
             return
     finally:
         threading.Event.wait = orig_wait
-    bad = [n for n, e in zip(names, p['errors']) if e != 'none']
+    bad = [n for n, e in zip(names, errors) if e != 'none']
     if bad:
         env.note('rejected')
         env.check(not started, K + '/erroneous-configuration-accepted/' + '+'.join(p['errors']))
         txt = '\n'.join(srv.secnode.errors)
-        for n, e in zip(names, p['errors']):
+        for n, e in zip(names, errors):
             if e != 'none':
                 env.check(n not in srv.secnode.modules, K + f'/{e}/failing-module-registered', n)
                 env.check(n in txt, K + f'/{e}/failing-module-not-reported', txt[:300])
@@ -185,7 +193,10 @@ def run_config(env, p):
         polls = [i for i, x in enumerate(w.log) if x[0] in ('poll', 'read') and x[1] == n]
         if env.check(len(writes) == 1, K + '/configured-value-not-written-exactly-once', len(writes)):
             env.check(M.eq(w.log[writes[0]][2], e['v']), K + '/written-value-differs')
-            env.check(bool(polls) and writes[0] < polls[0], K + '/poll-before-configured-write')
+            if n != 'm3':
+                env.check(bool(polls) and writes[0] < polls[0], K + '/poll-before-configured-write')
+            else:
+                env.check(not [i for i in polls if w.log[i][0] == 'poll'], K + '/polling-although-disabled')
         # later range checks use the overridden limits
         x = env.real(n + '.probe', -50, 150)
         from frappy.errors import RangeError
@@ -197,6 +208,36 @@ def run_config(env, p):
         prec = M.absv(x) * 1.2e-7
         inside = M.And(e['lo'] - prec <= x, x <= e['hi'] + prec)
         env.check(inside if accepted else M.Not(inside), K + '/range-check-ignores-configured-limits', accepted)
+    # the loaded configuration is not consumed by being applied: a restart of the node (Server.run loops over _processCfg with
+    # the configuration loaded once) gives the same start values and the same writes
+    try:
+        srv.secnode.shutdown_modules()
+    except Exception as e:
+        env.fail(K + '/shutdown-raised/' + type(e).__name__, repr(e))
+        return
+    w2 = World()
+    w2.env = env
+    w2.log = w.log
+    n0 = len(w.log)
+    srv2 = build_server(env, w2, cfgdict)
+    threading.Event.wait = lambda self, timeout=None: ([t.run() for t in list(w2.threads)], self._flag)[1]
+    try:
+        try:
+            srv2._processCfg()
+        except SystemExit:
+            env.fail(K + '/restart/valid-configuration-rejected', srv2.secnode.errors[:3])
+            return
+        except Exception as e:
+            env.fail(K + '/restart/processCfg-raised/' + type(e).__name__, repr(e)[:200])
+            return
+    finally:
+        threading.Event.wait = orig_wait
+    for n in names:
+        m = srv2.secnode.modules[n]
+        env.check(M.eq(m.pf, exp[n]['v']), K + '/restart/start-value-differs-from-configured', n)
+        env.check(m.needed == 1.5 and m.opt == 3 and m.pn == 7.0 and m.ps == 'text' and m.pe == 2, K + '/restart/other-settings-not-applied', n)
+        writes = [x for x in w.log[n0:] if x[0] == 'write_pf' and x[1] == n]
+        env.check(len(writes) == 1 and M.eq(writes[0][2], exp[n]['v']), K + '/restart/configured-value-not-written-exactly-once', [n, len(writes)])
     # the same class configured twice: sections are independent (see also C09)
     env.check(srv.secnode.modules['m1'].parameters['pf'].datatype is not srv.secnode.modules['m2'].parameters['pf'].datatype,
               K + '/datatype-shared-between-instances')
